@@ -267,6 +267,33 @@ def r2_ring_length(ctx):
                 continue
             ctx.bad("%s/%s" % (short(path), m), site_of(body, bb),
                     "length-changing call `%s` on ServerMutateTicks.ticks that is not part of a balanced idiom" % m)
+    # advancing the ring: every skipped slot is recycled as a fresh one
+    REORDER = {"rotate_left", "rotate_right", "swap", "make_contiguous", "as_mut_slices", "iter_mut", "get_mut", "front_mut", "back_mut"}
+    cf = [b for b in F.find("ServerMutateTicks::confirm")]
+    if cf:
+        body = cf[0]
+        tr = tracer(body)
+        reorder = []
+        for bb, t in body.calls():
+            m = callee_decl(t).rsplit("::", 1)[-1]
+            if m in ("rotate_left", "rotate_right", "swap", "make_contiguous") and t["args"] and "VecDeque" in callee_decl(t):
+                if any(r.path and any(e[0] == "f" and e[2] == "ticks" and e[3] == adt for e in r.path) for r in tr.operand(t["args"][0])):
+                    reorder.append((bb, m))
+        # the recycling loop: pushes of fresh slots inside a loop whose trip count derives from the tick gap
+        pushes = [(bb, t) for (bb, m, t) in by_fn.get(body.path, []) if m in ("push_front", "push_back")]
+        gap_loops = []
+        for bb, t in pushes:
+            for h, bs in body.loops_containing(bb):
+                nx = body.blocks[h].term
+                if nx["t"] == "call" and callee_decl(nx).endswith("Iterator::next"):
+                    from flow import dep_closure
+                    deps = dep_closure(body, nx["args"][0])
+                    if any(k == "call" and "RepliconTick as core::ops::arith::Sub" in callee_name(body.blocks[d].term) for (k, d) in deps):
+                        gap_loops.append(h)
+        ctx.check(bool(gap_loops) and not reorder, "%s/every-skipped-slot-recycled" % short(body.path), site_of(body),
+                  "advancing the ring by a gap does not recycle one fresh slot per skipped tick (in-place reordering %s / no loop over the gap): slots of skipped "
+                  "ticks would keep the counters of old ticks and report them as fully received" % reorder,
+                  "one pop/push pair per tick of the gap")
     # construction sites
     built = 0
     for body in F.real_fns():
@@ -476,7 +503,7 @@ def r4_notification(ctx):
 
 RULES = [
     ("C12.R1", "every shift amount in the confirmation windows is < the bit width", r1_shift_bounds, 6, None),
-    ("C12.R2", "the mutate-tick ring keeps exactly 64 slots", r2_ring_length, 4, None),
+    ("C12.R2", "the mutate-tick ring keeps exactly 64 slots and recycles one slot per skipped tick", r2_ring_length, 5, None),
     ("C12.R3", "ticks are ordered only through the wrapping comparison", r3_wrapping_order, 8, None),
     ("C12.R4", "the fully-received notification is wired to the ring's own verdict", r4_notification, 10, ["default", "all-features", "client-only"]),
 ]
